@@ -185,11 +185,13 @@ struct filler<1>
     template <typename Container, typename Tuple>
     void operator()(Container& hist, Tuple& lower, Tuple& upper, std::size_t bin_width = 1)
     {
+        // operator() creates a missing bin with a zero count and leaves an existing one alone:
+        // assigning zero here made an accumulating dense fill lose the counts gathered so far
         for (auto i = std::get<0>(lower); static_cast<std::size_t>(std::get<0>(upper) - i) >= bin_width; i += bin_width)
         {
-            hist(i / bin_width) = 0;
+            static_cast<void>(hist(i / bin_width));
         }
-        hist(std::get<0>(upper) / bin_width) = 0;
+        static_cast<void>(hist(std::get<0>(upper) / bin_width));
     }
 };
 
